@@ -1910,6 +1910,12 @@ SDwritedata(int32  sdsid,  /* IN: dataset ID */
     if (handle->vars == NULL)
         HGOTO_ERROR(DFE_ARGS, FAIL);
 
+    /* nothing is written to a file that is open for reading only (a dataset
+       without data used to take the fill-value path of the reader, "filled"
+       the caller's buffer and reported success) */
+    if (!(handle->flags & NC_RDWR))
+        HGOTO_ERROR(DFE_DENIED, FAIL);
+
     var = SDIget_var(handle, sdsid);
 
     if (var == NULL)
@@ -3183,6 +3189,11 @@ SDsetexternalfile(int32       id,       /* IN: dataset ID */
         HGOTO_ERROR(DFE_ARGS, FAIL);
     }
 
+    /* nothing of this would reach a file that is open for reading only */
+    if (!(handle->flags & NC_RDWR)) {
+        HGOTO_ERROR(DFE_DENIED, FAIL);
+    }
+
     if (handle->vars == NULL) {
         HGOTO_ERROR(DFE_ARGS, FAIL);
     }
@@ -3547,6 +3558,11 @@ SDsetnbitdataset(int32 id,        /* IN: dataset ID */
         HGOTO_ERROR(DFE_ARGS, FAIL);
     }
 
+    /* nothing of this would reach a file that is open for reading only */
+    if (!(handle->flags & NC_RDWR)) {
+        HGOTO_ERROR(DFE_DENIED, FAIL);
+    }
+
     if (handle->vars == NULL) {
         HGOTO_ERROR(DFE_ARGS, FAIL);
     }
@@ -3699,6 +3715,11 @@ SDsetcompress(int32        id,        /* IN: dataset ID */
     handle = SDIhandle_from_id(id, SDSTYPE);
     if (handle == NULL || handle->file_type != HDF_FILE) {
         HGOTO_ERROR(DFE_ARGS, FAIL);
+    }
+
+    /* nothing of this would reach a file that is open for reading only */
+    if (!(handle->flags & NC_RDWR)) {
+        HGOTO_ERROR(DFE_DENIED, FAIL);
     }
 
     if (handle->vars == NULL) {
@@ -4770,6 +4791,11 @@ SDsetchunk(int32         sdsid,     /* IN: sds access id */
         HGOTO_ERROR(DFE_ARGS, FAIL);
     }
 
+    /* nothing of this would reach a file that is open for reading only */
+    if (!(handle->flags & NC_RDWR)) {
+        HGOTO_ERROR(DFE_DENIED, FAIL);
+    }
+
     /* get variable from id */
     var = SDIget_var(handle, sdsid);
     if (var == NULL) {
@@ -5326,6 +5352,11 @@ SDwritechunk(int32       sdsid,  /* IN: access aid to SDS */
     handle = SDIhandle_from_id(sdsid, SDSTYPE);
     if (handle == NULL || handle->file_type != HDF_FILE || handle->vars == NULL) {
         HGOTO_ERROR(DFE_ARGS, FAIL);
+    }
+
+    /* nothing of this would reach a file that is open for reading only */
+    if (!(handle->flags & NC_RDWR)) {
+        HGOTO_ERROR(DFE_DENIED, FAIL);
     }
 
     /* get variable from id */
